@@ -74,7 +74,7 @@ CLAIMS = {
             "Trusted: Lean kernel; axioms propext, Classical.choice, Quot.sound; translator (rustc, guarded hooks, fqv dump-tables, gen_tables.py); Version::get beyond len 8192 sampled + `_ => None` parsed from the source text; ISO Table 3/7 transcription.",
             "Lean 4 proof over regenerated tables (decide +kernel on 480 cells, lifted to all lengths by monotonicity) + differential correspondence"),
     "C09": ("proof",
-            "Lean 4 theorem for every byte string: the model of best_encoding (two-stage scan with restart index) equals the property's three-way definition (C09_classify); the 256-entry classifier/value graphs regenerated from the compiled code equal ISO Table 5 (C09_tables); the chosen mode's alphabet always contains the input (C09_never_rejects). Correspondence: real builder's reported mode on exhaustive short strings, all class patterns, random long strings.",
+            "At the builder (C09_built, C09_forced): every symbol built with no mode forced reports exactly the classifier's mode, whose alphabet contains the input; a forced mode is reported as forced. Lean 4 theorem for every byte string: the model of best_encoding (two-stage scan with restart index) equals the property's three-way definition (C09_classify); the 256-entry classifier/value graphs regenerated from the compiled code equal ISO Table 5 (C09_tables); the chosen mode's alphabet always contains the input (C09_never_rejects). Correspondence: real builder's reported mode on exhaustive short strings, all class patterns, random long strings.",
             "Trusted: Lean kernel; axioms propext, Classical.choice, Quot.sound; hand model of best_encoding tied by correspondence (sampled beyond length 2); regenerated 256-entry graphs (translator).",
             "Lean 4 proof by induction over the scan + decide +kernel on regenerated 256-entry tables + differential correspondence"),
     "C16": ("proof",
